@@ -20,6 +20,7 @@ from mc.sandbox.box import Sandbox, build_macro, namespaces_available
 PROP = "C16"
 F1, F2 = "/data/one.root", "/data/two.root"
 FB = "/data/run 2012B/part one.root"      # a legal path with blanks
+FU = "root://eos.example.org//data/one.root"      # a URL, as ServiceX passes them
 MOUNTED = ["/data/f0.root", "/data/f1.root"]
 BUILD_TOOLS = {"cmake", "make", "scram", "mkedanlzr"}
 JOB_TOOLS = {"python", "cmsRun"}
@@ -45,6 +46,8 @@ INV = {
     "stray-after-flag": ["-c", "stray"],
     "r-d-joined": ["-rd", F1],
     "d-blank": ["-d", FB],
+    "d-url": ["-d", FU],
+    "r-d-url-o": ["-r", "-d", FU, "-o", "/out1"],
     "r-d-blank-o": ["-r", "-d", FB, "-o", "/out2"],
 }
 HIST = ["full", "c", "r-d-o", "r-d2-o2", "r"]
